@@ -196,6 +196,29 @@ Qed.
 Theorem s2s_unloaded s : s2s_get hash new_s2s s = Ok None /\ s2s_len new_s2s = Ok 0.
 Proof. split; reflexivity. Qed.
 
+(* the zero value Str2Str{}: LoadFromSlice accepts it (it creates the two parts), but Get and Len
+   dereference the nil inner map until a load has succeeded *)
+Definition s2s_zero_unloaded_statement : Prop :=
+  forall s, s2s_get hash zero_s2s s = Ok None /\ s2s_len zero_s2s = Ok 0.
+
+Lemma s2s_zero_unloaded_panics s :
+  s2s_get hash zero_s2s s = Panic 6 /\ s2s_len zero_s2s = Panic 6.
+Proof. split; reflexivity. Qed.
+
+Lemma s2s_zero_unloaded_false : ~ s2s_zero_unloaded_statement.
+Proof. intros H. destruct (H []) as [_ Hl]. discriminate Hl. Qed.
+
+Lemma s2s_zero_refused_still_zero kk vv :
+  length kk <> length vv -> fst (s2s_load hash sort zero_s2s kk vv) = zero_s2s.
+Proof. intros H. now rewrite s2s_load_fail_noop. Qed.
+
+Lemma s2s_zero_loaded kk vv s :
+  length kk = length vv -> NoDup kk -> loadable kk -> Forall small vv ->
+  snd (s2s_load hash sort zero_s2s kk vv) = Ok tt /\
+  s2s_get hash (fst (s2s_load hash sort zero_s2s kk vv)) s = Ok (assoc kk vv s) /\
+  s2s_len (fst (s2s_load hash sort zero_s2s kk vv)) = Ok (len kk).
+Proof. apply s2s_spec. Qed.
+
 Theorem s2s_load_map_spec st kk vv visit s :
   length kk = length vv -> NoDup kk -> loadable kk -> Forall small vv ->
   Permutation visit (combine kk vv) ->
